@@ -777,7 +777,23 @@ func (c *Ctx) ruleWorkDoneStep(rule string) {
 			}
 		}
 	}
+	// via: the call whose outcome implies the condition under examination (nil if the condition was tested here): a
+	// parameter of the callee stands for the argument of that call
+	var via *ssa.Call
 	stepIDOf := func(v ssa.Value) bool {
+		if prm, isParam := v.(*ssa.Parameter); isParam && via != nil {
+			if callee := core.StaticBody(&via.Call); callee != nil && prm.Parent() == callee {
+				for i, q := range callee.Params {
+					if q == prm && i < len(via.Call.Args) {
+						v = via.Call.Args[i]
+					}
+				}
+			}
+		}
+		if f, isField := v.(*ssa.Field); isField {
+			// a field of a message that was passed by value
+			return isMsg(f.X.Type()) && fieldName(f.X.Type(), f.Field) == "StepID"
+		}
 		ld, ok := v.(*ssa.UnOp)
 		if !ok {
 			return false
@@ -812,6 +828,8 @@ func (c *Ctx) ruleWorkDoneStep(rule string) {
 		return false
 	}
 	est := func(cond core.Cond) bool {
+		via = cond.Via
+		defer func() { via = nil }()
 		if bin, ok := cond.V.(*ssa.BinOp); ok && (bin.Op == token.EQL || bin.Op == token.NEQ) {
 			for _, pr := range [][2]ssa.Value{{bin.X, bin.Y}, {bin.Y, bin.X}} {
 				if stepIDOf(pr[0]) && (bin.Op == token.EQL) == cond.True {
